@@ -1,7 +1,9 @@
 """C16 -- Macro 05/06 compaction and GS1 start are exact and lossless."""
 import enccommon
 import gen
-from enccommon import model_line, canon_impl, ints
+from enccommon import canon_impl, ints
+model_line = enccommon.cert_model_line
+canon_model = enccommon.cert_canon_model
 
 PID = 'C16'
 RULE = ('envelope generator: {05, 06, damaged, no} header x {RS EOT, RS only, EOT only, no} trailer x bodies of length 0..40 from '
@@ -36,6 +38,7 @@ def macro_applies(cfg):
 
 
 def check_impl(c, out, ctx, prof):
+    why_cert = enccommon.cert_verdict(c, ctx)
     if not out.startswith('ok '):
         return None
     parts = out.split(' ')
@@ -52,7 +55,7 @@ def check_impl(c, out, ctx, prof):
     want = 'ok:' + (','.join(map(str, cfg['data'])) if cfg['data'] else '-')
     if parts[3] != want:
         return 'decoded data %s differs from the message %s' % (parts[3][:80], want[:80])
-    return None
+    return why_cert
 
 
 def nontrivial(c, out):
